@@ -21,13 +21,13 @@ IT_CFG = {
     'record_default': {'vec_off': 'vec_off_new()'},
     'record_copy': {'all_dies_iterator': 'all_dies_iterator_copy', 'cu_iterator': 'cu_iterator_copy'},
     'types_prelude': '#include "dw_model.h"\n',
-    'bodies_prelude': '#include "dw_model2.h"\n',
+    'bodies_prelude': '#define C02_DWIT 1\n#include "dw_model2.h"\n',
     'extern': {'__assert_fail': 'verif_assert_fail_libc', 'abort': 'verif_abort',
                r'dwarf_child': 'm_dwarf_child', r'dwarf_siblingof': 'm_dwarf_siblingof', r'dwarf_offdie': 'm_dwarf_offdie',
                r'dwarf_dieoffset': 'm_dwarf_dieoffset', r'dwarf_nextcu': 'm_dwarf_nextcu', r'dwarf_cuoffset': 'm_dwarf_cuoffset',
                r'throw_libdw.*': 'm_throw_libdw',
                VOFF + r'::push_back': 'vec_off_push_back', VOFF + r'::back': 'VEC_OFF_BACK', VOFF + r'::pop_back': 'vec_off_pop_back',
-               VOFF + r'::empty': 'VEC_OFF_EMPTY', r'std::operator==\|.*vector.*': 'vec_off_eq'},
+               VOFF + r'::empty': 'VEC_OFF_EMPTY', VOFF + r'::size': 'VEC_OFF_SIZE', r'std::operator==\|.*vector.*': 'vec_off_eq'},
 }
 IT_ROOTS = ['_ZN17all_dies_iteratorppEv', '_ZN17all_dies_iteratorC1EP5Dwarf', 'all_dies_iterator::parent']
 
@@ -47,3 +47,94 @@ PC_CFG = {
                VPAIR + r'::push_back': 'vec_pair_push_back', r'std::make_pair': 'make_offpair'},
 }
 PC_ROOTS = ['parent_cache::populate_unit']
+
+
+def jobs(tier):
+    inc = [OUT, os.path.join(vlib.VERIF, 'props'), HERE]
+    isrc = [os.path.join(HERE, 'dwit_harness.c'), os.path.join(OUT, 'dwit_bodies.c')]
+    psrc = [os.path.join(HERE, 'pc_harness.c'), os.path.join(OUT, 'pc_bodies.c')]
+    A = ['--object-bits', '10']
+    nn = 5 if tier == 'quick' else 6
+    pn = 5 if tier == 'quick' else 7
+    ntrees = len(unit_trees(pn))
+    D = ['NN=%d' % nn]
+    J = [Job('bounded_all_dies_n%d' % nn, isrc, 'hb_all_dies', includes=inc, defines=D, kind='bounded', unwind=9, timeout=3000, cbmc_args=A,
+             inputs=['g_n'], note='all_dies_iterator over every forest of <= %d DIEs in any number of units' % nn),
+         Job('bounded_parent_table_n%d' % pn, psrc, 'hb_parent_table', includes=inc, defines=['NN=%d' % pn], kind='bounded', unwind=ntrees + 2, timeout=1200, cbmc_args=A,
+             note='parent_cache::populate_unit over every unit tree shape of <= %d DIEs (%d shapes enumerated, offsets symbolic)' % (pn, ntrees)),
+         Job('all_dies_control', isrc, 'hb_all_dies_control', includes=inc, defines=D + ['VERIF_CONTROL'], kind='control', expect='fail', unwind=9,
+             timeout=600, cbmc_args=A),
+         Job('parent_table_control', psrc, 'hb_parent_table_control', includes=inc, defines=['NN=%d' % pn, 'VERIF_CONTROL'], kind='control', expect='fail',
+             unwind=ntrees + 2, timeout=600, cbmc_args=A)]
+    return J
+
+
+LEVEL = 'bounded'
+TRUSTED = ['tools/cxx2c.py lowering', 'props/c02/dw_model*.h: assumed contract of dwarf_child / dwarf_siblingof / dwarf_offdie / dwarf_dieoffset / dwarf_nextcu on a well-formed .debug_info forest (error returns not modelled)']
+ASSUMPTIONS = [
+    'libdw is replaced by a forest model: DIEs numbered in section order with a parent array and ascending offsets; a unit DIE has no sibling; unit headers sit a fixed 11 bytes before their unit DIE',
+    'std::vector<Dwarf_Off> / std::vector<pair<Dwarf_Off,Dwarf_Off>> are small inline arrays; copying an iterator object is a struct copy',
+    'BOUNDED: iterator: forests of <= 5 DIEs (6 in thorough), any shape, symbolic; parent table: every unit tree shape of <= 5 DIEs (7 in thorough) enumerated concretely, offsets symbolic',
+    'SLICE of C02: the DIE producers of builtin-dw.cc (per-input numbering), attribute iteration, `label`/`form`/`offset` words, root_cache, parent_cache::find (std::map + lower_bound) and everything elfutils does are NOT covered; abbreviations claiming children for childless DIEs are a libdw matter (dwarf_child contract)',
+]
+EXPLANATION = 'Bounded check of the section-order DIE iterator and the parent table on the real code over a libdw model; see DESIGN.md section 4 C02.'
+
+
+def spec_files():
+    return [os.path.join(HERE, f) for f in ('dwit_harness.c', 'pc_harness.c', 'dw_model.h', 'dw_model2.h')]
+
+
+def unit_trees(nmax):
+    """all parent arrays (pre-order numbering, node 0 the unit DIE) of rooted ordered trees with <= nmax nodes"""
+    out = []
+    def ext(par):
+        out.append(list(par))
+        if len(par) == nmax:
+            return
+        # the next node hangs below the last node or one of its ancestors
+        a = len(par) - 1
+        while a >= 0:
+            ext(par + [a])
+            a = par[a]
+    ext([-1])
+    return out
+
+
+def write_trees(nmax):
+    ts = unit_trees(nmax)
+    with open(os.path.join(OUT, 'pc_trees.h'), 'w') as f:
+        f.write('/* GENERATED by props/c02/prop.py: all %d unit tree shapes with <= %d DIEs */\n' % (len(ts), nmax))
+        f.write('#define N_TREES %d\n' % len(ts))
+        f.write('static const unsigned TREE_N[N_TREES] = {%s};\n' % ', '.join(str(len(t)) for t in ts))
+        f.write('static const int TREE_PAR[N_TREES][NN] = {\n')
+        for t in ts:
+            f.write('  {%s},\n' % ', '.join(str(x) for x in (t + [-2] * nmax)[:nmax]))
+        f.write('};\n')
+
+
+def prepare(tier):
+    a = vlib.extract('dwit', 'libzwerg/dwit.cc', IT_CFG, IT_ROOTS, OUT)
+    b = vlib.extract('pc', 'libzwerg/cache.cc', PC_CFG, PC_ROOTS, OUT)
+    write_trees(5 if tier == 'quick' else 7)
+    return {'unit': 'libzwerg/dwit.cc (all_dies_iterator, cu_iterator), libzwerg/cache.cc (parent_cache::populate_unit)', 'functions': a.report['functions'] + b.report['functions']}
+
+
+FILES = ['dwz-partial', 'a1.out', 'nontrivial-types.o', 'twocus', 'haschildren_childless', 'dwz-partial2-1', 'enum.o']
+
+
+def replay(r):
+    """Law queries on the sample files of the repository through the real library (dw vocabulary)."""
+    import glob
+    files = [os.path.join(vlib.REPO, 'tests', f) for f in FILES if os.path.exists(os.path.join(vlib.REPO, 'tests', f))]
+    qs, what = [], []
+    for f in files:
+        for q, w in (('"%s" dwopen (|D| [D raw entry] length == [D raw unit root child*] length)', 'raw entry lists exactly the DIEs reachable by root child*'),
+                     ('"%s" dwopen (|D| [D raw entry ?(parent)] length == [D raw entry ?(parent) ?((|E| E parent child ?(E ?eq)))] length)', 'every DIE with a parent is a child of that parent'),
+                     ('"%s" dwopen (|D| [D raw entry !(parent)] length == [D raw unit] length)', 'exactly the unit DIEs have no parent'),
+                     ('"%s" dwopen (|D| [D raw entry] length == [D raw entry (|E| E parent* ?root)] length)', 'every parent chain ends in a root')):
+            qs.append(q % f); what.append((os.path.basename(f), w))
+    if not qs:
+        return {'reproduced': False, 'note': 'no sample DWARF files found'}
+    res = vlib.zw_queries(qs, OUT, dw=True)
+    bad = ['%s: law "%s" does not hold (%s)' % (f, w, 'error: ' + str(t) if c is None else 'count %s' % c) for (f, w), (c, t) in zip(what, res) if c != 1]
+    return {'reproduced': bool(bad), 'violations_on_real_library': bad[:6], 'queries': len(qs)}
